@@ -494,8 +494,16 @@ func (env *Env) call(n *ast.CallExpr) Term {
 			return boolT(or(eq(app("s_base", a.S), "0"), not(eq(app("s_base", a.S), app("s_base", b.S)))))
 		case "inheap":
 			// the type invariant of a reference/slice value in the current state (allocated before now)
+			// (contract-level meaning only: "allocated before now". The engine's extra conjuncts about
+			// non-escaping local allocations belong to ASSUMED type invariants of loaded values; in a
+			// contract formula, which is also asserted, they would demand disequality from allocations
+			// of unrelated paths.)
 			v := env.ev(n.Args[0])
-			return boolT(env.e.typeInv(v, env.heap))
+			saved := env.e.privRefs
+			env.e.privRefs = nil
+			t := env.e.typeInv(v, env.heap)
+			env.e.privRefs = saved
+			return boolT(t)
 		case "isobj":
 			// a top-level heap object (not an interior pointer to an embedded struct, not nil)
 			v := env.ev(n.Args[0])
